@@ -262,7 +262,7 @@ def enumerate_cases(tier, seed):
     quick = tier == "quick"
     cases = []
     if quick:
-        shapes = [[4, 4, 4], [2, 3], [20, 20], [5, 6, 7], [3, 2, 3], [10, 10, 10], [3, 4, 5, 6], [2, 2, 2, 2], [2, 2, 2, 2, 2]]
+        shapes = [[4, 4, 4], [2, 2], [2, 3], [20, 20], [5, 6, 7], [3, 2, 3], [10, 10, 10], [3, 4, 5, 6], [2, 2, 2, 2], [2, 2, 2, 2, 2]]
         fs = ["sum", "inv", "exp", "ttrank2", "ttrank3"]
         eps_list = [1e-4, 1e-9]
         seeds = [seed, 1, 2] if seed not in (1, 2) else [seed, seed + 1, seed + 2]
@@ -304,7 +304,7 @@ def enumerate_cases(tier, seed):
 
 def bound(tier, seed):
     if tier == "quick":
-        return ("C14 quick: torchtt.interpolate.dmrg_cross(f,N,eps) (nswp=10, kick=2 defaults) for N in {[4,4,4],[2,3],[20,20],"
+        return ("C14 quick: torchtt.interpolate.dmrg_cross(f,N,eps) (nswp=10, kick=2 defaults) for N in {[4,4,4],[2,2],[2,3],[20,20],"
                 "[5,6,7],[3,2,3],[10,10,10],[3,4,5,6],[2,2,2,2],[2,2,2,2,2]} and f in {sum: I.sum(1) (float64), inv: "
                 "1/(2+sum), exp: exp(-sum/sum(N)), ttrank2/ttrank3: table lookup in a fixed random tensor of exact TT rank "
                 "2/3}; torchtt.interpolate.function_interpolate(f,x,eps) for N in {[4,4,4],[2,3],[12,11],[5,6,7],[3,4,5,6]} with "
